@@ -86,6 +86,7 @@ int main(int argc, char **argv) {
 	prepare_files();
 	vt = va_vtable();
 	p_libsys_init_full(&vt);
+	hash_refs_prepare();
 	N = run_case(fn, 0, 0);
 	if (N < 0) { printf("{\"ev\":\"stats\",\"scenario\":\"%s\",\"N\":-1,\"cases\":0}\n", scname); cleanup_files(); return 0; }
 	for (i = 1; i <= 2; i++) if (modes & i) for (k = 1; k <= N + 1; k++) { run_case(fn, k, i == 2); cases++; }
